@@ -137,6 +137,8 @@ func main() {
 	switch os.Args[1] {
 	case "check":
 		os.Exit(cmdCheck(os.Args[2:]))
+	case "replay":
+		os.Exit(cmdReplay(os.Args[2:]))
 	default:
 		fmt.Fprintln(os.Stderr, "unknown command")
 		os.Exit(2)
@@ -327,7 +329,11 @@ func cmdCheck(args []string) int {
 	for _, u := range units {
 		for _, o := range u.obls {
 			u, o := u, o
-			jobs = append(jobs, func() OblResult { return u.x.discharge(o, outDir, timeoutMs, *tier == "thorough") })
+			jobs = append(jobs, func() OblResult {
+				r := u.x.discharge(o, outDir, timeoutMs, *tier == "thorough")
+				r.Contract = u.c
+				return r
+			})
 		}
 	}
 	results := dischargeAll(jobs, 16)
